@@ -217,15 +217,16 @@ Definition stores (decompress : N -> bytes -> option bytes)
 (** well-formed single-file layout for an image *)
 Record dd_wf (l : dd_layout) (img : image) : Prop := {
   wf_pgsz : exists k, 12 <= k <= 18 /\ dl_page_size l = 2^k;
-  wf_version : 1 <= dl_version l <= 6;
+  wf_version : dl_version l <= 6;
   wf_mapnr32 : dl_version l < 6 -> dl_max_mapnr l < 2^32;
   wf_mapnr64 : dl_max_mapnr l < 2^64;
   wf_img_len : N.of_nat (length img) <= dl_max_mapnr l;
   wf_pages : Forall (fun oc => match oc with
                                | Some c => len c = dl_page_size l /\ bytes_ok c
                                | None => True end) img;
-  wf_sub : 1 <= dl_sub_blocks l < 2^31 - 1;
-  wf_sub_fits : sub_hdr_struct_size l + len (pad8 (dl_vmcoreinfo l)) + len (pad8 (dl_notes l))
+  wf_sub : dl_sub_blocks l < 2^31 - 1;
+  wf_sub_fits : 1 <= dl_version l ->
+                sub_hdr_struct_size l + len (pad8 (dl_vmcoreinfo l)) + len (pad8 (dl_notes l))
                 + len (dl_eraseinfo l) <= dl_sub_blocks l * dl_page_size l;
   wf_bmp : 1 <= dl_bmp_blocks l /\ bitmap_blocks l < 2^31;
   wf_cover : dl_max_mapnr l <= 8 * dl_bmp_blocks l * dl_page_size l;
